@@ -11,7 +11,21 @@ import sys
 VERIF = os.path.dirname(os.path.dirname(os.path.abspath(__file__)))
 
 
-def main(root, prev_suffixes):
+MINI = """
+
+VARIANT OF THE TASK FOR THIS ROUND: instead of one elaborate change, produce THREE different SMALL changes — the size of a
+typical slip: one to three lines each (a swapped operator or argument, an off-by-one, a wrong variable, a dropped or
+duplicated call, a condition negated or weakened, a moved statement, a wrong default, `is` vs `==`, list vs set, early
+return, wrong key, shallow instead of deep, etc.). Each must break the property, keep the code importable and keep the whole
+existing test suite passing, and each must be in a DIFFERENT function from the other two (different files where possible)
+and differ from the previous contributors' changes. Deliver them as {wt}/out/m1/, {wt}/out/m2/, {wt}/out/m3/, each directory
+holding its own patch.diff (relative to the CLEAN tree, i.e. each patch applies on its own), demo.py and meta.json as
+described above, and verify (i)-(iii) for each of the three separately (apply one patch at a time on the clean tree). If
+after a serious attempt you can only find two that pass the test suite, deliver two and say so. Leave the worktree clean
+(git checkout -- labtech) at the end."""
+
+
+def main(root, prev_suffixes, mini=False):
     os.makedirs(root, exist_ok=True)
     for l in open(os.path.join(VERIF, 'properties.jsonl')):
         p = json.loads(l)
@@ -52,9 +66,11 @@ Deliverables (all under {wt}/out/):
   3. meta.json   — {{"property": "{pid}", "summary": "<one paragraph: what was changed and why it breaks the property>", "needs_to_manifest": "<what specific input / schedule / fault / sequence is needed>", "files_touched": [...]}}
 
 Before finishing, VERIFY all of this yourself: (i) with the change applied the full test suite passes; (ii) demo.py exits non-zero with the change; (iii) on the clean tree (see above, no stash) demo.py exits 0; then re-apply your change so the worktree still contains it and out/patch.diff matches it. Report briefly what you did and the results of (i)-(iii)."""
+        if mini:
+            prompt += MINI.format(wt=wt)
         open(f'{wt}/out/PROMPT.txt', 'w').write(prompt)
     print('prompts ready under', root)
 
 
 if __name__ == '__main__':
-    main(sys.argv[1], sys.argv[2].split(',') if len(sys.argv) > 2 else [])
+    main(sys.argv[1], sys.argv[2].split(',') if len(sys.argv) > 2 else [], mini=(len(sys.argv) > 3 and sys.argv[3] == 'mini'))
